@@ -152,33 +152,41 @@ def call_spec(eng, fn, args, kwargs, st, node):
     ctx.fun(name, [sort_of(t) for t in meta.argtypes], sort_of(meta.ret))
     app = ctx.app(name, *ts)
     ground = not any(s.startswith('?') for s in app.syms)
+    if not ground:
+        for t in ts:
+            eng.note_pattern(app, t)
+    key = app.s
+    if ground:
+        app = smt.T(app.s, app.sort, app.syms, app.apps | frozenset([key]))
+    argvals = [wrap(t, ty) for t, ty in zip(ts, meta.argtypes)]
+    plain = smt.T(app.s, app.sort, app.syms)
     if meta.kind == 'rec':
-        key = app.s
-        app = smt.T(app.s, app.sort, app.syms, app.apps | frozenset([key]) if ground else app.apps)
         if ground and key not in ctx.unfold:
-            argvals = [wrap(t, ty) for t, ty in zip(ts, meta.argtypes)]
-
-            def thunk(argvals=argvals, app=app):
+            def thunk():
                 from .symexec import State
                 body = inline_spec(eng, fn, argvals, State(), None)
                 bt = as_term(eng, body, meta.ret, State())
-                return Eq(smt.T(app.s, app.sort, app.syms), bt)
-            ctx.unfold[key] = thunk
+                return Eq(plain, bt)
+            ctx.unfold[key] = ('rec', thunk)
         return [(wrap(app, meta.ret), st)]
-    # uninterpreted with per-application facts
-    res = wrap(app, meta.ret)
-    if ground or True:
-        fnode = fn_ast(fn)
-        names = [a.arg for a in fnode.args.args]
-        bound = {n: wrap(t, ty) for n, t, ty in zip(names, ts, meta.argtypes)}
-        bound['result'] = res
-        for fact in meta.facts:
-            g = eng.clause(fact, st, bound)
-            if any(s.startswith('?') for s in g.syms):
-                continue
-            st.assume(g)
+    # uninterpreted with per-application facts (the *specification* of the function)
+    if ground and key not in ctx.unfold:
+        def thunk2():
+            import importlib
+            from .symexec import State
+            fnode = fn_ast(fn)
+            names = [a.arg for a in fnode.args.args]
+            bound = dict(zip(names, argvals))
+            bound['result'] = wrap(plain, meta.ret)
+            saved = (eng.module, eng.modname)
+            eng.module, eng.modname = importlib.import_module(fn.__module__), fn.__module__
+            try:
+                return And(*[eng.clause(f, State(), bound) for f in meta.facts])
+            finally:
+                eng.module, eng.modname = saved
+        ctx.unfold[key] = ('fact', thunk2)
     eng.trusted_used.add('spec-uninterpreted:S.%s%s' % (fn.__name__, ' (' + meta.note + ')' if meta.note else ''))
-    return [(res, st)]
+    return [(wrap(app, meta.ret), st)]
 
 
 def call_spec_by_name(eng, name, args, st, node):
